@@ -886,3 +886,182 @@ Proof.
   - destruct (implicit_roles_reach k s u d Hg Hg2 HI) as [roles [s' [H1 [H2 [H3 _]]]]]. eauto.
   - intro r. apply (roles_users_inverse_views k s u r d HI).
 Qed.
+
+(* ------------------------------------------------------------------------------------------ *)
+(* 10. the resource-centred views                                                              *)
+
+Lemma add_key_In acc r x : In x (add_key acc r) <-> In x acc \/ x = r.
+Proof.
+  unfold add_key. destruct (mem rule_eqb r acc) eqn:M.
+  - apply mem_rule_In in M. split; [auto|intros [H | ->]; auto].
+  - rewrite in_app_iff. simpl. split; [intros [H|[H|[]]]; auto|intros [H|H]; auto].
+Qed.
+
+Lemma add_key_NoDup acc r : NoDup acc -> NoDup (add_key acc r).
+Proof.
+  intro H. unfold add_key. destruct (mem rule_eqb r acc) eqn:M; [exact H|].
+  apply NoDup_app_snoc; [exact H|]. apply has_policy_false. exact M.
+Qed.
+
+Lemma fold_add_key_spec (f : name -> rule) : forall us acc,
+  (NoDup acc -> NoDup (fold_left (fun a u => add_key a (f u)) us acc))
+  /\ forall x, In x (fold_left (fun a u => add_key a (f u)) us acc) <-> In x acc \/ exists u, In u us /\ x = f u.
+Proof.
+  induction us as [|u us IH]; intro acc; simpl.
+  - split; [auto|]. intro x. split; [auto|intros [H|[u [[] _]]]; exact H].
+  - destruct (IH (add_key acc (f u))) as [H1 H2]. split.
+    + intro Hn. apply H1. apply add_key_NoDup. exact Hn.
+    + intro x. rewrite H2, add_key_In. split.
+      * intros [[H|H]|[v [Hv Hx]]]; [left; exact H|right; exists u; auto|right; exists v; auto].
+      * intros [H|[v [[Hv|Hv] Hx]]]; [left; left; exact H|subst v; left; right; exact Hx|right; exists v; auto].
+Qed.
+
+(* what one permission rule contributes to the view *)
+Definition res_contrib (k : mkind) (s : mstate) (roles : list name) (res : name) (dom : option name) (r x : rule) : Prop :=
+  fld r (i_obj k) = res
+  /\ (forall d, dom = Some d -> fld r (i_dom k) = d)
+  /\ ((~ In (fld r (i_sub k)) roles /\ x = r)
+      \/ (In (fld r (i_sub k)) roles
+          /\ exists u, In (u, fld r (i_sub k)) (links_at k s (match dom with Some d => d | None => empty_dom end))
+                       /\ x = set_nth (i_sub k) u r)).
+
+Definition dom_arg (dom : option name) : name := match dom with Some d => d | None => empty_dom end.
+
+Lemma i_cols_lt k (r : rule) : length r = p_arity k ->
+  (i_sub k < length r)%nat /\ (i_dom k < length r)%nat /\ (i_obj k < length r)%nat /\ (i_act k < length r)%nat.
+Proof.
+  intro H. rewrite H. unfold p_arity, i_eft, i_act, i_obj, i_dom, i_sub.
+  destruct (k_eft k), (k_dom k), (k_prio k); lia.
+Qed.
+
+Lemma synced_users k s rm sub dd : Inv k s -> synced (g_count k PT_G) rm (m_g s) ->
+  forall u, In u (fst (rmk_get_users rm sub dd)) <-> In (u, sub) (links_at k s dd).
+Proof.
+  intros HI Hs u. assert (HI1 : Inv k (set_rm s rm)) by (apply Inv_set_rm; assumption).
+  pose proof (get_users_canon k (set_rm s rm) sub dd HI1) as H. cbn [m_rm m_g set_rm] in H. rewrite H.
+  rewrite rm_get_users_In. reflexivity.
+Qed.
+
+Lemma users_for_resource_spec k s roles res dom : Inv k s ->
+  forall l rm acc, synced (g_count k PT_G) rm (m_g s) -> Forall (fun r => length r = p_arity k) l ->
+  exists out rm', users_for_resource k rm roles res dom l acc = Ok (out, rm')
+    /\ synced (g_count k PT_G) rm' (m_g s)
+    /\ (NoDup acc -> NoDup out)
+    /\ forall x, In x out <-> In x acc \/ exists r, In r l /\ res_contrib k s roles res dom r x.
+Proof.
+  intro HI. induction l as [|r l IH]; intros rm acc Hs Hl.
+  - exists acc, rm. split; [reflexivity|]. split; [exact Hs|]. split; [auto|].
+    intro x. split; [auto|]. intros [H|[r [[] _]]]. exact H.
+  - inversion Hl as [|? ? Hr Hl']; subst. destruct (i_cols_lt k r Hr) as [L1 [L2 [L3 L4]]].
+    cbn [users_for_resource]. unfold field. rewrite !(nth_error_fld r _ L3), !(nth_error_fld r _ L1), !(nth_error_fld r _ L2).
+    assert (Hskip : forall rm0 acc0, synced (g_count k PT_G) rm0 (m_g s) ->
+              (forall x, ~ res_contrib k s roles res dom r x) ->
+              exists out rm', users_for_resource k rm0 roles res dom l acc0 = Ok (out, rm')
+                /\ synced (g_count k PT_G) rm' (m_g s) /\ (NoDup acc0 -> NoDup out)
+                /\ forall x, In x out <-> In x acc0 \/ exists r0, In r0 (r :: l) /\ res_contrib k s roles res dom r0 x).
+    { intros rm0 acc0 Hs0 Hno. destruct (IH rm0 acc0 Hs0 Hl') as [out [rm' [E [S' [N I]]]]].
+      exists out, rm'. split; [exact E|]. split; [exact S'|]. split; [exact N|].
+      intro x. rewrite I. split.
+      - intros [H|[r0 [Hr0 Hc]]]; [left; exact H|right; exists r0; split; [right; exact Hr0|exact Hc]].
+      - intros [H|[r0 [[Hr0|Hr0] Hc]]]; [left; exact H|subst r0; exfalso; exact (Hno x Hc)|right; eauto]. }
+    destruct (fld r (i_obj k) =? res) eqn:Eo; cbn [negb].
+    2:{ apply Hskip; [exact Hs|]. intros x [Ho _]. apply N.eqb_neq in Eo. contradiction. }
+    apply N.eqb_eq in Eo.
+    set (skip := match dom with Some d => negb (fld r (i_dom k) =? d) | None => false end).
+    destruct skip eqn:Esk.
+    { apply Hskip; [exact Hs|]. intros x [_ [Hd _]]. unfold skip in Esk. destruct dom as [d|]; [|discriminate].
+      apply negb_true_iff in Esk. apply N.eqb_neq in Esk. apply Esk. apply Hd. reflexivity. }
+    assert (Hdom : forall d, dom = Some d -> fld r (i_dom k) = d).
+    { intros d Hd. unfold skip in Esk. rewrite Hd in Esk. apply negb_false_iff in Esk. apply N.eqb_eq. exact Esk. }
+    destruct (mem N.eqb (fld r (i_sub k)) roles) eqn:Em; cbn [negb].
+    + (* a role: replaced by its direct users *)
+      apply mem_N_In in Em.
+      pose proof (synced_users k s rm (fld r (i_sub k)) (dom_arg dom) HI Hs) as Hus.
+      pose proof (synced_get_users _ _ _ (fld r (i_sub k)) (dom_arg dom) Hs) as Hs'.
+      unfold dom_arg in *. destruct (rmk_get_users rm (fld r (i_sub k)) match dom with Some d => d | None => empty_dom end)
+        as [us rm1] eqn:Eu. cbn [fst snd] in Hus, Hs'.
+      destruct (fold_add_key_spec (fun u => set_nth (i_sub k) u r) us acc) as [F1 F2].
+      destruct (IH rm1 (fold_left (fun a u => add_key a (set_nth (i_sub k) u r)) us acc) Hs' Hl')
+        as [out [rm' [E [S' [N I]]]]].
+      exists out, rm'. split; [exact E|]. split; [exact S'|]. split; [intro Hn; apply N; apply F1; exact Hn|].
+      intro x. rewrite I, F2. split.
+      * intros [[H|[u [Hu Hx]]]|[r0 [Hr0 Hc]]]; [left; exact H| |right; exists r0; split; [right; exact Hr0|exact Hc]].
+        right. exists r. split; [left; reflexivity|]. split; [exact Eo|]. split; [exact Hdom|].
+        right. split; [exact Em|]. exists u. split; [apply Hus; exact Hu|exact Hx].
+      * intros [H|[r0 [[Hr0|Hr0] Hc]]]; [left; left; exact H| |right; eauto].
+        subst r0. destruct Hc as [_ [_ [[Hn _]|[_ [u [Hu Hx]]]]]]; [contradiction|].
+        left. right. exists u. split; [apply Hus; exact Hu|exact Hx].
+    + (* not a role: the rule itself *)
+      apply mem_N_false in Em.
+      destruct (IH rm (add_key acc r) Hs Hl') as [out [rm' [E [S' [N I]]]]].
+      exists out, rm'. split; [exact E|]. split; [exact S'|]. split; [intro Hn; apply N; apply add_key_NoDup; exact Hn|].
+      intro x. rewrite I, add_key_In. split.
+      * intros [[H|H]|[r0 [Hr0 Hc]]]; [left; exact H| |right; exists r0; split; [right; exact Hr0|exact Hc]].
+        right. exists r. split; [left; reflexivity|]. split; [exact Eo|]. split; [exact Hdom|]. left. split; assumption.
+      * intros [H|[r0 [[Hr0|Hr0] Hc]]]; [left; left; exact H| |right; eauto].
+        subst r0. destruct Hc as [_ [_ [[_ Hx]|[Hn _]]]]; [left; right; exact Hx|contradiction].
+Qed.
+
+(* which view is meaningful for which model: get_implicit_users_for_resource for the model without
+   domains, get_implicit_users_for_resource_by_domain for the model with domains *)
+Definition view_ok (k : mkind) (dom : option name) : Prop :=
+  match dom with None => k_dom k = false | Some d => k_dom k = true /\ d <> 0 end.
+
+Lemma MAXLVL_gt1 : (1 < MAXLVL)%nat.
+Proof. unfold MAXLVL. lia. Qed.
+
+(* the view is exactly: every rule on the resource (of the domain), its subject replaced by each
+   direct user when the subject is one of `roles`; nothing twice; and every reported permission is
+   one that enforce grants *)
+Theorem resource_view_exact_and_sound k s roles res dom :
+  rbac_kind k -> Inv k s -> wf_p k s -> m_enabled s = true -> res <> 0 -> view_ok k dom ->
+  exists out rm', users_for_resource k (m_rm s) roles res dom (m_p s) [] = Ok (out, rm')
+    /\ NoDup out
+    /\ (forall x, In x out <-> exists r, In r (m_p s) /\ res_contrib k s roles res dom r x)
+    /\ (forall x, In x out -> decision_of (snd (enforce_ex_m k s x)) = Ok true).
+Proof.
+  intros Hk HI Hwf Hen Hres Hv.
+  destruct (users_for_resource_spec k s roles res dom HI (m_p s) (m_rm s) [] (proj1 HI) Hwf)
+    as [out [rm' [E [_ [N I]]]]].
+  exists out, rm'. split; [exact E|]. split; [apply N; constructor|].
+  assert (I' : forall x, In x out <-> exists r, In r (m_p s) /\ res_contrib k s roles res dom r x).
+  { intro x. rewrite I. split; [intros [[]|H]; exact H|intro H; right; exact H]. }
+  split; [exact I'|].
+  intros x Hx. apply I' in Hx. destruct Hx as [r [Hr [Ho [Hd Hc]]]].
+  pose proof Hk as [Hg [Hg2 [He [Hp Hf]]]].
+  assert (Hlen : length r = p_arity k) by (unfold wf_p in Hwf; rewrite Forall_forall in Hwf; apply Hwf; exact Hr).
+  rewrite (p_arity_rbac k Hk) in Hlen.
+  assert (Hone : forall u, In (u, fld r (i_sub k)) (links_at k s (dom_arg dom)) -> near (links_at k s (dom_arg dom)) u (fld r (i_sub k))).
+  { intros u Hu. exists 1%nat. split; [apply MAXLVL_gt1|]. econstructor; [exact Hu|constructor]. }
+  assert (Hzero : forall d, near (links_at k s d) (fld r (i_sub k)) (fld r (i_sub k))).
+  { intro d. exists 0%nat. split; [apply MAXLVL_pos|constructor]. }
+  unfold i_act, i_obj, i_dom, i_sub in *. rewrite Hp in *. unfold view_ok, dom_arg in *.
+  destruct (k_dom k) eqn:Kd.
+  - (* with domains *)
+    destruct dom as [d|]; [|discriminate]. destruct Hv as [_ Hd0]. specialize (Hd d eq_refl).
+    destruct r as [|sb [|d' [|o [|a [|? ?]]]]]; try discriminate. cbn [fld nth] in *. subst d' o.
+    assert (G : forall u, near (links_at k s d) u sb -> decision_of (snd (enforce_ex_m k s [u; d; res; a])) = Ok true).
+    { intros u Hn. rewrite enforce_char; try assumption.
+      - f_equal. apply existsb_exists. exists [sb; d; res; a]. split; [exact Hr|].
+        assert (Eq : [u; d; res; a] = mk_req k u d res a) by (unfold mk_req; rewrite Kd; reflexivity). rewrite Eq at 1.
+        apply (rule_matches_grants k s u d res a _ Hk HI); [unfold dom_ok; rewrite Kd; exact Hd0|].
+        unfold rule_grants, i_act, i_obj, i_sub. rewrite Kd, Hp. cbn [fld nth]. auto.
+      - unfold r_arity. rewrite Kd. reflexivity.
+      - apply empty_rule_inert_perm; [exact Hk|unfold r_arity; rewrite Kd; reflexivity|].
+        exists res. split; [right; left; reflexivity|exact Hres]. }
+    destruct Hc as [[_ ->]|[_ [u [Hu ->]]]]; cbn [set_nth]; apply G; [apply (Hzero d)|apply Hone; exact Hu].
+  - (* without domains *)
+    destruct dom as [d|]; [destruct Hv; discriminate|].
+    destruct r as [|sb [|o [|a [|? ?]]]]; try discriminate. cbn [fld nth] in *. subst o.
+    assert (G : forall u, near (links_at k s empty_dom) u sb -> decision_of (snd (enforce_ex_m k s [u; res; a])) = Ok true).
+    { intros u Hn. rewrite enforce_char; try assumption.
+      - f_equal. apply existsb_exists. exists [sb; res; a]. split; [exact Hr|].
+        assert (Eq : [u; res; a] = mk_req k u 0 res a) by (unfold mk_req; rewrite Kd; reflexivity). rewrite Eq at 1.
+        apply (rule_matches_grants k s u 0 res a _ Hk HI); [unfold dom_ok; rewrite Kd; reflexivity|].
+        unfold rule_grants, i_act, i_obj, i_sub. rewrite Kd, Hp. cbn [fld nth]. split; [exact Hn|].
+        split; [discriminate|split; reflexivity].
+      - unfold r_arity. rewrite Kd. reflexivity.
+      - apply empty_rule_inert_perm; [exact Hk|unfold r_arity; rewrite Kd; reflexivity|].
+        exists res. split; [left; reflexivity|exact Hres]. }
+    destruct Hc as [[_ ->]|[_ [u [Hu ->]]]]; cbn [set_nth]; apply G; [apply (Hzero empty_dom)|apply Hone; exact Hu].
+Qed.
